@@ -8,6 +8,7 @@ From LJT Require Import model.Huff gen.GenNbits gen.GenStdHuff proofs.NbitsProof
   gen.GenHuffGen proofs.HuffGenConst
   model.HuffSym gen.GenHuffSym proofs.HuffSymProofs proofs.HuffBridgeProofs.
 From LJT Require model.T81Spec proofs.T81BlockProofs proofs.T81HuffProofs.
+From LJT Require Import model.HuffSel gen.GenHuffSel proofs.HuffSelFacts.
 Import ListNotations.
 Local Open Scope Z_scope.
 
@@ -354,3 +355,18 @@ Theorem C19_decoders_agree_on_code_words :
   T.hc_dec (T.mk_coder counts vals) (code ++ rest) = Some (sym, rest).
 Proof. exact decoders_agree_on_code_words. Qed.
 Print Assumptions C19_decoders_agree_on_code_words.
+
+(* ---- which table is used where (regenerated from the six entropy codecs): every
+   DC-classed table array is indexed through dc_tbl_no and every AC-classed one
+   through ac_tbl_no; the only writers of a Huffman table's sent_table are the
+   expected ones (a regenerated table is always re-sent); the work arrays of
+   jpeg_gen_optimal_table have automatic storage (the generator is a function of
+   the histogram alone) *)
+Theorem C19_source_table_selection :
+  selection_consistent gen_table_selection = true /\
+  Nat.leb 40 (List.length gen_table_selection) = true /\
+  gen_sent_table_writers = expected_sent_table_writers /\
+  gen_genopt_work_arrays = expected_genopt_work_arrays /\
+  gen_genopt_static_locals = 0%nat.
+Proof. exact source_table_selection. Qed.
+Print Assumptions C19_source_table_selection.
